@@ -77,6 +77,18 @@ def exact_value(item, units):
 
 
 def run(ctx):
+    # comparisons reached through variables, arrays, comprehensions; lazy values that share ranges; aggregates over comparables
+    C.seam_check(ctx["report"], ctx["rundir"], "C09",
+                 texts=["1/2 < 0.5", "3! == 6", "1 dozen == 12", "3 rad > 2", "1 m == 100 cm", "#2020-01-01# < #2020-01-02#", "C(4,2) == 3!", "5 m < 5 s",
+                        "#2020-01-01T00:00:00+01:00# == #2019-12-31T23:00:00+00:00#", "#2020-01-01T00:00:00+01:00# <= #2019-12-31T23:00:00+00:00#",
+                        "1 dozen < 11", "11 < 1 dozen", "1 dozen != 12", "0.1 + 0.2 == 0.3", "10^20 + 1 > 10^20", "1e20 + 1 > 1e20"],
+                 templates=[("%s < 2", ["1", "2", "3", "3/2"]), ("%s dozen == 12", ["1", "2"]), ("(%s m) <= (100 cm)", ["1/2", "1", "2"]), ("%s == \"a\"", ["1", "\"a\""]),
+                            ("%s / 2 == 3/2", ["3", "0.5", "3.0"])],
+                 pairs=[("a = C(10,3); x = 7*a; y = 8*a; (x < y) + (x == y) + (x > y)", "1"), ("a = C(10,3); x = 7*a; y = 8*a; x < y", "1"),
+                        ("a = C(10,3); x = 7*a; y = 8*a; {x > y, x == y}", "{0, 0}"), ("a = C(10,3); {7*a == 840, 7*a != 840}", "{1, 0}"),
+                        ("a = 5!/7!; x = 2*a; y = 3*a; {x < y, y < x}", "{1, 0}"), ("a = C(10,3); {7*a < 1000, 7*a == 1000, 7*a > 1000}", "{1, 0, 0}"),
+                        ("max({#2024-03-01#, #2024-01-01#, #2024-02-01#}) == #2024-03-01#", "1"), ("min({#2024-03-01#, #2024-01-01#, #2024-02-01#}) == #2024-01-01#", "1"),
+                        ("max({2 m, 300 cm, 1 m}) == 3 m", "1"), ("min({2, 1/2, 0.75}) == 1/2", "1"), ("max({3!, 4!, 5}) == 24", "1")])
     rep, tier, seed = ctx["report"], ctx["tier"], ctx["seed"]
     names = ["rad", "dozen", "m", "cm", "km", "metres", "sm", "s", "min", "h", "seconds"]
     units = C.run_impl(Q.resolve_units, [names], ctx["rundir"], limit=60.0, procs=1)[0]
